@@ -8,6 +8,7 @@ package codon
 // verif:bound C07 round-trip clause: default tables 1, 2, 11, 27, 31 (quick) / all 25 (thorough), proteins of 1..2 letters over the table's own letters, every value of every rand.Intn draw
 // verif:bound C07 no-crash clause: proteins of 1..2 bytes over all 128 ASCII values on tables 1 and 11: error or a correct result, never a panic
 // verif:bound C07 refusal-then-acceptance clause: a 2-residue protein 'M'+x with x symbolic over A k space J 1 * newline (refused unless it is a table letter), then a protein of 1 (quick) / 1..2 (thorough) table letters optimised in the same process, tables 1 and 11
+// verif:bound C07 non-ASCII clause: a symbolic table letter followed by one of 7 non-ASCII characters (2-, 3-, 4-byte UTF-8; several whose low byte spells a table letter), tables 1 and 11: rejected
 // verif:bound C07 threshold clause: one amino acid with 2 (quick) / 3 (thorough) synonymous codons, symbolic weights 0..15 (quick) / 0..63 (thorough): every emitted codon has 10*w > sum(w) and w > 0; an amino acid whose synonyms all have weight 0 is rejected with an error
 // verif:bound C07 random-protein clause: random.ProteinSequence of length 3 (quick) / 3..4 (thorough) for every value of its rand.Intn draws, optimised under tables 1, 11 (quick) / 1, 2, 11, 27, 31 (thorough; length 4 under tables 1 and 27 only); tables without a '*' letter (27, 31) must reject the generator's trailing '*'
 // verif:assume C07 math/rand.Intn(n) returns an arbitrary value in [0,n) and panics for n <= 0; rand.Seed and the clock have no effect
@@ -96,6 +97,18 @@ func Harness_C07_RefusedThenAccepted() {
 		vAssert(vEqStr(back, second), "translates-back-to-the-protein-after-a-refusal")
 	}
 	vCover("C07 the first protein was refused", err1 != nil)
+}
+
+// a residue outside ASCII is a residue the table cannot encode, whatever its low byte spells
+func Harness_C07_NonASCIIResidue() {
+	id := []int{1, 11}[vChoice(2)]
+	table := GetCodonTable(id)
+	r := []string{"\u0144", "\u0141", "\u014b", "\u0153", "\u00e9", "\u4e2d", "\U0001d6fc"}[vChoice(7)]
+	p := vBytes(1, c07Letters(id)) + r
+	var err error
+	panicked := vPanics(func() { _, err = Optimize(p, table) })
+	vAssert(!panicked, "unencodable-residue-is-an-error-not-a-crash")
+	vAssert(err != nil, "non-ascii-residue-is-rejected")
 }
 
 func Harness_C07_Threshold() {
